@@ -96,12 +96,12 @@ def bucket_of(stage, loc, msg):
     return f"{stage}:{key}:{re.sub(r'[0-9]+', 'N', msg)[:30]}"
 
 
-def roundtrip(text, quote, case, public=False, d1=None, opts=None):
+def roundtrip(text, quote, case, public=False, d1=None, opts=None, comments=False):
     W = env.Workers.get()
     out = []
     if d1 is None:
         try:
-            d1 = W.loads(text)
+            d1 = W.loads(text, comments=comments)
         except Exception as e:
             return [Discrepancy(f"load1:{type(e).__name__}", f"first loads raised {type(e).__name__}: {str(e)[:200]}", case)]
     try:
@@ -124,6 +124,8 @@ def roundtrip(text, quote, case, public=False, d1=None, opts=None):
         kw = ctx.strip().split(" ")[0] if ctx else ""
         return [Discrepancy(f"reload:{type(e).__name__}:{tok}:{kw}",
                             f"written text is rejected by loads ({type(e).__name__}) near: {ctx!r}", case)]
+    if comments:
+        d1 = refdict.strip_hidden(d1)   # (the comments themselves are C14's business: the content must survive)
     for loc, msg in licence_walk(d1, d2):
         out.append(Discrepancy(bucket_of("content", loc, msg), f"after dumps/loads, at {loc}: {msg}", case))
         break
@@ -180,7 +182,15 @@ def search(acc: Acc, tier, shard, nshards):
 
             opts = options.draw(ch, quotes=[quote], separate=False)
             acc.cls("with_layout_options")
-        return roundtrip(text, quote, {"doc": doc, "text": text, "quote": quote, "opts": opts}, public=ch.chance(1, 50), opts=opts)
+        comments = ch.chance(1, 5)
+        if comments:
+            # the dictionary loaded with its comments is written back too (any newlinechar with a line break)
+            from .. import options
+
+            opts = options.draw(ch, quotes=[quote], separate=False, linebreak_only=True, has_comments=True)
+            acc.cls("loaded_with_comments")
+        return roundtrip(text, quote, {"doc": doc, "text": text, "quote": quote, "opts": opts, "comments": comments}, public=ch.chance(1, 50) and not comments,
+                         opts=opts, comments=comments)
 
     hyp_search(acc, ID, "documents", shard, n, body, tier)
 
@@ -192,4 +202,4 @@ def replay(case):
         text = corpus.read(os.path.join(env.REPO, case["file"]))
     else:
         text = case["text"]
-    return roundtrip(text, case.get("quote", '"'), case, opts=case.get("opts"))
+    return roundtrip(text, case.get("quote", '"'), case, opts=case.get("opts"), comments=case.get("comments", False))
